@@ -217,6 +217,7 @@ class GenerateWasmVisitor(Visitor.DefaultVisitor):
             LinearIR.OpCode.ADD,
             LinearIR.OpCode.SUB,
             LinearIR.OpCode.MUL,
+            LinearIR.OpCode.CMP_EQ,
         }:
             if unsigned:
                 opCode += "_u"
